@@ -34,27 +34,28 @@ theorem gen_checkC05 (sig : Sig) : checkC05 genCfg.probe genCfg.exec sig = true 
 /-- After one `_execute` - returning or propagating, whatever the student code did, even if recording the
     failure itself failed - both stacks are empty again and stdout / time.sleep / sys.modules / the trace
     function / the process builtins are what they were (tracer styles that restore the trace function). -/
-theorem c05_restored_after_execute (style : TraceStyle) (hst : TraceOK style) (s : St) (hs : s.Inv)
-    (t : Termination) (inject : Bool) :
-    (execute genCfg style s t inject).1.Inv ∧ (execute genCfg style s t inject).1.g = s.g :=
-  execute_restores genCfg c05_probe_restores gen_checkC05 style hst s hs t inject
+theorem c05_restored_after_execute (style : TraceStyle) (nested : Bool) (hst : TraceOK style nested) (s : St)
+    (hs : s.Inv) (t : Termination) (inject : Bool) :
+    (execute genCfg style nested s t inject).1.Inv ∧ (execute genCfg style nested s t inject).1.g = s.g :=
+  execute_restores genCfg c05_probe_restores gen_checkC05 style nested hst s hs t inject
 
 /-- The same through the entry points `run`, `call` (including the missing-function early return), `evaluate`. -/
-theorem c05_restored_after_op (s : St) (hs : s.Inv) (op : Op) (hst : TraceOK op.style) :
+theorem c05_restored_after_op (s : St) (hs : s.Inv) (op : Op) (hst : TraceOK op.style op.nested) :
     (stepOp genCfg s op).1.Inv ∧ (stepOp genCfg s op).1.g = s.g := by
   unfold stepOp
   split
   · exact ⟨hs, rfl⟩
-  · exact c05_restored_after_execute op.style hst s hs op.term op.inject
-  · exact c05_restored_after_execute op.style hst s hs op.term op.inject
+  · exact c05_restored_after_execute op.style op.nested hst s hs op.term op.inject
+  · exact c05_restored_after_execute op.style op.nested hst s hs op.term op.inject
 
 /-- The hypothesis `StacksRestored` of `c04_history` (PedalProofs/C04.lean), discharged. -/
-theorem c05_discharges_c04_hypothesis (s : St) (op : Op) (hs : s.Inv) (hst : TraceOK op.style) :
+theorem c05_discharges_c04_hypothesis (s : St) (op : Op) (hs : s.Inv) (hst : TraceOK op.style op.nested) :
     (stepOp genCfg s op).1.Inv :=
   (c05_restored_after_op s hs op hst).1
 
 /-- After ANY sequence of executions the stacks are empty and the borrowed globals are the original ones. -/
-theorem c05_restored_after_history (ops : List Op) (hst : ∀ op ∈ ops, TraceOK op.style) (s : St) (hs : s.Inv) :
+theorem c05_restored_after_history (ops : List Op) (hst : ∀ op ∈ ops, TraceOK op.style op.nested) (s : St)
+    (hs : s.Inv) :
     (runOps genCfg s ops).Inv ∧ (runOps genCfg s ops).g = s.g := by
   induction ops generalizing s with
   | nil => exact ⟨hs, rfl⟩
@@ -64,7 +65,8 @@ theorem c05_restored_after_history (ops : List Op) (hst : ∀ op ∈ ops, TraceO
     exact ⟨h2.1, h2.2.trans h1.2⟩
 
 /-- Student code gets a private copy of the builtins: no execution history changes the process-wide ones. -/
-theorem c05_builtins_private (ops : List Op) (hst : ∀ op ∈ ops, TraceOK op.style) (s : St) (hs : s.Inv) :
+theorem c05_builtins_private (ops : List Op) (hst : ∀ op ∈ ops, TraceOK op.style op.nested) (s : St)
+    (hs : s.Inv) :
     mockProbe.builtinsPrivate = true ∧ (runOps genCfg s ops).g.builtins = s.g.builtins :=
   ⟨by decide, by rw [(c05_restored_after_history ops hst s hs).2]⟩
 
@@ -73,14 +75,14 @@ theorem c05_builtins_private (ops : List Op) (hst : ∀ op ∈ ops, TraceOK op.s
     is covered (evaluated). -/
 example : St.init.Inv := by decide
 
-def exampleStyle : TraceStyle := { name := "native", installs := true, restores := true }
+def exampleStyle : TraceStyle := { name := "native", installs := true, restores := true, restoresNested := true }
 def exampleBase : ExcDesc :=
   { cls := "KeyboardInterrupt", isException := false, isSystemExit := false, isKeyError := false, hazards := [],
     synLine := none, frames := [{ kind := .student, line := 2 }] }
 def exampleOps : List Op :=
-  [{ entry := .run, style := exampleStyle, inject := false, term := .normal },
-   { entry := .run, style := exampleStyle, inject := false, term := .raised exampleBase },
-   { entry := .call true, style := exampleStyle, inject := true,
+  [{ entry := .run, style := exampleStyle, nested := true, inject := false, term := .normal },
+   { entry := .run, style := exampleStyle, nested := false, inject := false, term := .raised exampleBase },
+   { entry := .call true, style := exampleStyle, nested := true, inject := true,
      term := .raised { exampleBase with cls := "ValueError", isException := true } }]
 
 example : (stepOp genCfg St.init exampleOps[1]).2.1 = .propagated .student := by decide
@@ -88,65 +90,73 @@ example : (runOps genCfg St.init exampleOps).Inv := by decide
 
 /-! ### The full statement over every generated tracer style, and the region where it fails -/
 
-/-- A tracer style that installs a trace function and does not put the previous one back. -/
-def Excluded (style : TraceStyle) : Bool := style.installs && !style.restores
+/-- A tracer style that installs a trace function and does not put the previous one back - at all, or (when the
+    executed code imports another student file) after being re-entered. -/
+def Excluded (style : TraceStyle) (nested : Bool) : Bool := style.leaks nested
 
-theorem traceOK_of_not_excluded (style : TraceStyle) (h : Excluded style = false) : TraceOK style := by
-  intro hi
-  cases hr : style.restores
-  · simp [Excluded, hi, hr] at h
-  · rfl
+theorem traceOK_of_not_excluded (style : TraceStyle) (nested : Bool) (h : Excluded style nested = false) :
+    TraceOK style nested := h
 
-/-- The property as stated: for EVERY tracer style pedal offers. -/
+/-- `Sandbox._import` leaves failure handling and patching to the `_execute` it runs inside (from its AST). -/
+theorem c05_import_transparent : importDef.transparent = true := by decide
+
+/-- The property as stated: for EVERY tracer style pedal offers, importing student files or not. -/
 def C05_Restored_Full : Prop :=
-  ∀ style ∈ traceStyles, ∀ s : St, s.Inv → ∀ t inject,
-    (execute genCfg style s t inject).1.Inv ∧ (execute genCfg style s t inject).1.g = s.g
+  ∀ style ∈ traceStyles, ∀ (nested : Bool) (s : St), s.Inv → ∀ t inject,
+    (execute genCfg style nested s t inject).1.Inv ∧ (execute genCfg style nested s t inject).1.g = s.g
 
-theorem c05_restored_partial (style : TraceStyle) (hx : Excluded style = false) (s : St) (hs : s.Inv)
-    (t : Termination) (inject : Bool) :
-    (execute genCfg style s t inject).1.Inv ∧ (execute genCfg style s t inject).1.g = s.g :=
-  c05_restored_after_execute style (traceOK_of_not_excluded style hx) s hs t inject
+theorem c05_restored_partial (style : TraceStyle) (nested : Bool) (hx : Excluded style nested = false) (s : St)
+    (hs : s.Inv) (t : Termination) (inject : Bool) :
+    (execute genCfg style nested s t inject).1.Inv ∧ (execute genCfg style nested s t inject).1.g = s.g :=
+  c05_restored_after_execute style nested (traceOK_of_not_excluded style nested hx) s hs t inject
 
-theorem c05_restored_full_of_no_excluded (h : ∀ style ∈ traceStyles, Excluded style = false) :
+theorem c05_restored_full_of_no_excluded (h : ∀ style ∈ traceStyles, Excluded style true = false) :
     C05_Restored_Full :=
-  fun style hm s hs t inject => c05_restored_partial style (h style hm) s hs t inject
+  fun style hm nested s hs t inject =>
+    c05_restored_partial style nested (TraceOK.of_nested (h style hm) nested) s hs t inject
 
-/-- The data layer reads a tracer style only through its two flags. -/
-theorem applyPrim_style (env : Env) (style' : TraceStyle) (hi : style'.installs = env.style.installs)
-    (hr : style'.restores = env.style.restores) (s : St) (q : Prim) :
+/-- The data layer reads a tracer style only through whether it leaks. -/
+theorem applyPrim_style (env : Env) (style' : TraceStyle) (h : style'.leaks env.nested = env.style.leaks env.nested)
+    (s : St) (q : Prim) :
     applyPrim { env with style := style' } s q = applyPrim env s q := by
-  cases q <;> simp [applyPrim, Env.reported, Env.mkFb, hi, hr]
+  cases q <;> simp [applyPrim, Env.reported, Env.mkFb, h]
 
-theorem applyPrims_style (env : Env) (style' : TraceStyle) (hi : style'.installs = env.style.installs)
-    (hr : style'.restores = env.style.restores) (qs : List Prim) (s : St) :
+theorem applyPrims_style (env : Env) (style' : TraceStyle) (h : style'.leaks env.nested = env.style.leaks env.nested)
+    (qs : List Prim) (s : St) :
     applyPrims { env with style := style' } s qs = applyPrims env s qs := by
   induction qs generalizing s with
   | nil => rfl
-  | cons q qs ih => rw [applyPrims_cons, applyPrims_cons, applyPrim_style env style' hi hr, ih]
+  | cons q qs ih => rw [applyPrims_cons, applyPrims_cons, applyPrim_style env style' h, ih]
 
-def leakyStyle : TraceStyle := { name := "", installs := true, restores := false }
+def leakyStyle : TraceStyle := { name := "", installs := true, restores := false, restoresNested := false }
 
-/-- With a non-restoring style even a program that ends normally leaves another trace function (evaluated). -/
+/-- With a leaking style even a program that ends normally (after importing a student file) leaves another
+    trace function (evaluated). -/
 def traceLeakCheck : Bool :=
-  (execute genCfg leakyStyle St.init .normal false).1.g.trace != St.init.g.trace
+  (execute genCfg leakyStyle true St.init .normal false).1.g.trace != St.init.g.trace
 
-/-- Whenever the probe table lists a non-restoring style, the full statement is false: a normal run from the
-    initial state with that style ends with a different trace function. -/
-theorem c05_restored_counterexample (hx : traceStyles.any Excluded = true) (hc : traceLeakCheck = true) :
-    ¬ C05_Restored_Full := by
+/-- Whenever the probe table lists a style that leaks (at least when re-entered), the full statement is false:
+    a normal run that imports a student file, from the initial state with that style, ends with a different trace
+    function. -/
+theorem c05_restored_counterexample (hx : traceStyles.any (Excluded · true) = true) (hre : importDef.reentersTracer = true)
+    (hc : traceLeakCheck = true) : ¬ C05_Restored_Full := by
   intro hfull
   obtain ⟨style, hm, he⟩ := List.any_eq_true.mp hx
-  have := (hfull style hm St.init (by decide) .normal false).2
-  simp only [Excluded, Bool.and_eq_true, Bool.not_eq_true'] at he
-  have hsame : (execute genCfg style St.init .normal false).1 = (execute genCfg leakyStyle St.init .normal false).1 := by
+  have := (hfull style hm true St.init (by decide) .normal false).2
+  have hsame : (execute genCfg style true St.init .normal false).1 =
+      (execute genCfg leakyStyle true St.init .normal false).1 := by
     simp only [execute]
-    exact (applyPrims_style (envOf genCfg leakyStyle .normal) style (by simp [envOf, leakyStyle, he.1])
-      (by simp [envOf, leakyStyle, he.2]) _ _)
+    have hn : (envOf genCfg leakyStyle true .normal).nested = true := by
+      show (true && importDef.reentersTracer) = true
+      simp [hre]
+    exact (applyPrims_style (envOf genCfg leakyStyle true .normal) style
+      (by rw [hn]; simpa [Excluded, envOf, leakyStyle, TraceStyle.leaks] using he) _ _)
   rw [hsame] at this
   simp only [traceLeakCheck, bne_iff_ne, ne_eq] at hc
   exact hc (by rw [this])
 
 /-- The counterexample applies to the tree under test exactly when the table lists such a style (evaluated). -/
-theorem c05_counterexample_applies : traceStyles.any Excluded = true → traceLeakCheck = true := by decide
+theorem c05_counterexample_applies :
+    traceStyles.any (Excluded · true) = true → importDef.reentersTracer = true ∧ traceLeakCheck = true := by decide
 
 end Pedal.SandboxExec
